@@ -36,8 +36,11 @@ def install(ctx):
 def cases(ctx):
     rng = ctx.rng
     for i in range(ctx.n(2000, 8000)):
-        yield {"mu": rng.normal(0, 3, 2), "sig": rng.uniform(0.1, 5, 2), "sc": str(rng.choice(["pos", "neg"])), "r": rng.uniform(1e-6, 1 - 1e-6, 5), "th": rng.normal(0, 4, 5),
-               "fm": [float(rng.choice([0.01, 0.05, 0.1, 0.3, 0.29, 0.57, float(rng.uniform(0.001, 0.9))])) for _ in range(2)],
+        mu = rng.normal(0, 3, 2)
+        if rng.random() < 0.25:  # special means: exactly zero (either sign), symmetric, equal
+            mu = np.array([float(rng.choice([0.0, -0.0, 1.0, mu[0]])), float(rng.choice([0.0, -0.0, mu[1]]))])
+        yield {"mu": mu, "sig": rng.uniform(0.1, 5, 2), "sc": str(rng.choice(["pos", "neg"])), "r": rng.uniform(1e-6, 1 - 1e-6, 5), "th": rng.normal(0, 4, 5),
+               "fm": [float(rng.choice([0.01, 0.05, 0.1, 0.3, 0.29, 0.57, 0.5, 0.5, float(rng.uniform(0.001, 0.9))])) for _ in range(2)],
                "sup": [int(rng.integers(1, 60)), int(rng.integers(1, 60))], "sig2": rng.uniform(0.2, 3, 2),
                "p": float(rng.choice([0.0, 1.0, 0.29, 0.57, 0.1, 0.7, float(rng.uniform())])), "n": int(rng.integers(1, 300)),
                "p12": rng.uniform(0.02, 0.98, 2), "u": rng.uniform(0, 1, 4), "_seed": int(rng.integers(1 << 31))}
@@ -55,6 +58,9 @@ def execute(ctx, case):
     sess.observe("R-data")
     C = lambda ok, what, key, **kw: sess.check("R-data", bool(ok), what, w(**kw), sig=sig, key=key)  # noqa: E731
     ds = NormalDataset(mu_pos=mu_p, mu_neg=mu_n, sigma_pos=sp, sigma_neg=sn, score_class=sc)
+    C(ds.mu_pos == mu_p and ds.mu_neg == mu_n and ds.sigma_pos == sp and ds.sigma_neg == sn, "constructor does not keep the given parameters", "data-ctor", stored=[ds.mu_pos, ds.mu_neg])
+    dflt = NormalDataset(mu_pos=mu_p)
+    C(dflt.mu_neg == -mu_p and dflt.sigma_pos == 3.75 and dflt.sigma_neg == 3.0 and dflt.p_pos == 0.5, "defaulted mu_neg is not -mu_pos", "data-ctor-default")
     r = case["r"]
     t = ds.threshold_at_fnr(r)
     C(np.allclose(ds.fnr(t), r, rtol=1e-9, atol=1e-12), "fnr(threshold_at_fnr(r)) != r", "data-fnr-inverse", r=r, back=ds.fnr(t))
@@ -99,6 +105,9 @@ def execute(ctx, case):
     smp = d2.sample(rng=np.random.default_rng(case["_seed"]))
     smp_b = d2.sample(rng=np.random.default_rng(case["_seed"]))
     C(len(smp.pos) + len(smp.neg) == d2.n and smp.score_class.value == "pos" and smp == smp_b, "sample(): wrong size/score_class or not reproducible for a fixed rng", "data-sample")
+    dn = NormalDataset(mu_pos=mu_p, mu_neg=mu_n, sigma_pos=sp, sigma_neg=sn, score_class=sc, n=23, p_pos=0.25)
+    smp = dn.sample(rng=np.random.default_rng(5))
+    C(len(smp.pos) + len(smp.neg) == 23, "sample(): n given in the constructor is not used", "data-sample-ctor-n")
     smp = ds.sample(n=37, rng=np.random.default_rng(1))
     C(len(smp.pos) + len(smp.neg) == 37 and smp.score_class.value == sc and smp.nb_easy_pos == 0 and smp.nb_easy_neg == 0, "sample(n=37): wrong size or score_class", "data-sample-n")
     s1 = ds.sample(n=50, p_pos=1.0, rng=np.random.default_rng(2))
